@@ -40,11 +40,13 @@ var solvers = []solverSpec{
 		// E-matching only: every refutation is built from instances of the asserted quantifiers
 		return []string{"z3-new", fmt.Sprintf("-T:%d", t), "auto_config=false", "smt.case_split=0", "smt.phase_selection=1", "smt.mbqi=false", f}
 	}},
-	{"z3-new/ps1m", func(f string, t int) []string {
-		return []string{"z3-new", fmt.Sprintf("-T:%d", t), "auto_config=false", "smt.case_split=0", "smt.phase_selection=1", f}
+	{"z3-new/ps1s3", func(f string, t int) []string {
+		return []string{"z3-new", fmt.Sprintf("-T:%d", t), "auto_config=false", "smt.case_split=0", "smt.phase_selection=1", "smt.mbqi=false", "smt.random_seed=3", f}
 	}},
-	{"z3-new", func(f string, t int) []string { return []string{"z3-new", fmt.Sprintf("-T:%d", t), f} }},
-	{"z3", func(f string, t int) []string { return []string{"z3", fmt.Sprintf("-T:%d", t), f} }},
+	{"z3-new", func(f string, t int) []string {
+		return []string{"z3-new", fmt.Sprintf("-T:%d", t), "smt.mbqi=false", f}
+	}},
+	{"z3", func(f string, t int) []string { return []string{"z3", fmt.Sprintf("-T:%d", t), "smt.mbqi=false", f} }},
 	{"cvc5", func(f string, t int) []string { return []string{"cvc5", fmt.Sprintf("--tlimit=%d", t*1000), f} }},
 }
 
@@ -53,21 +55,23 @@ var solvers = []solverSpec{
 // removes most of the instability of slow queries).
 var lateSolvers = []solverSpec{
 	{"z3-new/seed1", func(f string, t int) []string {
-		return []string{"z3-new", fmt.Sprintf("-T:%d", t), "smt.random_seed=1", f}
+		return []string{"z3-new", fmt.Sprintf("-T:%d", t), "smt.random_seed=1", "smt.mbqi=false", f}
 	}},
 	{"z3-new/seed2", func(f string, t int) []string {
-		return []string{"z3-new", fmt.Sprintf("-T:%d", t), "smt.random_seed=2", f}
+		return []string{"z3-new", fmt.Sprintf("-T:%d", t), "smt.random_seed=2", "smt.mbqi=false", f}
 	}},
-	{"z3/seed3", func(f string, t int) []string { return []string{"z3", fmt.Sprintf("-T:%d", t), "smt.random_seed=3", f} }},
+	{"z3/seed3", func(f string, t int) []string {
+		return []string{"z3", fmt.Sprintf("-T:%d", t), "smt.random_seed=3", "smt.mbqi=false", f}
+	}},
 }
 
 // a third wave for queries still undecided after 15 s
 var lateSolvers2 = []solverSpec{
 	{"z3-new/seed4", func(f string, t int) []string {
-		return []string{"z3-new", fmt.Sprintf("-T:%d", t), "smt.random_seed=4", f}
+		return []string{"z3-new", fmt.Sprintf("-T:%d", t), "smt.random_seed=4", "smt.mbqi=false", f}
 	}},
 	{"z3-new/seed5", func(f string, t int) []string {
-		return []string{"z3-new", fmt.Sprintf("-T:%d", t), "smt.random_seed=5", "smt.arith.random_initial_value=true", f}
+		return []string{"z3-new", fmt.Sprintf("-T:%d", t), "smt.random_seed=5", "smt.arith.random_initial_value=true", "smt.mbqi=false", f}
 	}},
 }
 
